@@ -101,6 +101,13 @@ def unit_rankings_unbounded(model):
         return z3.And(d.size == k, z3.Implies(k > 0, sv == a(k - 1)), z3.Implies(k == 0, sv == 0), sorted_ts,
                       z3.ForAll([j], z3.Implies(z3.And(j >= 0, j < k), body)))
     specs = {(q, 1): LoopSpec(["team_scores"], inv1), (q, 2): LoopSpec(["s", "rank_output"], inv2)}
+    from ..loops import sidecar_mismatch
+    why = sidecar_mismatch(extract.find_function(extract.parse(extract.MODEL_FILES[model]), q), specs, q)
+    if why:
+        # the loop contracts are keyed by loop ordinal and state-variable names: after a restructuring
+        # they say nothing about the code - not attempted (the shape-bounded rate-level obligations decide)
+        return [driver.rec(f"C03/{model}/_calculate_rankings/unbounded-proof", "skipped", "-", 0, kind="note", fn=q,
+                           note=f"{why}; decided for the listed shapes only")]
     tr = CutLoops(specs)
     S = extract.Scratch(model, transforms={extract.MODEL_FILES[model]: [tr]})
     if sorted(tr.cut) != sorted(specs):
